@@ -104,5 +104,74 @@ def check(s):
     if len(hits) < 2:
         raise AnalysisError("C12.3 positive control not flagged: the collective matcher is not armed")
     s.control(f"C12.3 positive control flagged: {[h.what for h in hits]}")
-    for r_, n_ in (("C12.1", 300), ("C12.2", 41), ("C12.3", 16)):
+    # ---------------------------------------------------------------- C12.4 mapping-valued pytree fields keep their order
+    check_mapping_fields(s)
+    for r_, n_ in (("C12.1", 300), ("C12.2", 41), ("C12.3", 16), ("C12.4", 2)):
         s.floor(r_, n_)
+
+
+def check_mapping_fields(s):
+    """C12.4: JAX flattens a plain `dict` with its keys SORTED and rebuilds it in that order at every transformation boundary
+    (jit / vmap / scan / cond), while an OrderedDict keeps its insertion order (documented pytree behaviour). A non-static Module
+    field holding a mapping that some method iterates positionally must therefore be an OrderedDict, otherwise the same method
+    gives differently ordered results eagerly and after a jit / vmap round trip of its owner."""
+    import ast
+
+    P = s.prog
+    n_fields = 0
+
+    def ann_kind(ann):
+        if ann is None:
+            return None
+        src = ast.unparse(ann) if not (isinstance(ann, ast.Constant) and isinstance(ann.value, str)) else ann.value
+        head = src.split("[")[0].split(".")[-1].strip()
+        return {"dict": "dict", "Dict": "dict", "Mapping": "dict", "MutableMapping": "dict", "OrderedDict": "ordered"}.get(head)
+
+    def value_kind(v):
+        if isinstance(v, (ast.Dict, ast.DictComp)):
+            return "dict"
+        if isinstance(v, ast.Call):
+            f = ast.unparse(v.func).split(".")[-1]
+            if f == "OrderedDict":
+                return "ordered"
+            if f == "dict":
+                return "dict"
+        return None
+
+    for ci in sorted(P.classes.values(), key=lambda c: c.qualname):
+        if not P.is_module_class(ci) or ci.module.name.startswith(("lerax.render", "lerax.callback")):
+            continue
+        for f in ci.fields.values():
+            ak = ann_kind(f.annotation)
+            # what __init__ stores
+            vk = None
+            init = ci.methods.get("__init__")
+            if init is not None:
+                for st in ast.walk(init):
+                    if isinstance(st, ast.Assign) and len(st.targets) == 1 and isinstance(st.targets[0], ast.Attribute) and isinstance(st.targets[0].value, ast.Name) \
+                            and st.targets[0].value.id == "self" and st.targets[0].attr == f.name:
+                        vk = value_kind(st.value) or vk
+            if ak is None and vk is None:
+                continue
+            if f.static:
+                continue  # static fields are treedef metadata, not flattened
+            # is the field iterated positionally anywhere in the class hierarchy below / above?
+            iterated = []
+            for c2 in [ci] + P.subclasses(ci):
+                for mname, fn in c2.methods.items():
+                    for n_ in ast.walk(fn):
+                        tgt = None
+                        if isinstance(n_, ast.Call) and isinstance(n_.func, ast.Attribute) and n_.func.attr in ("items", "values", "keys") :
+                            tgt = n_.func.value
+                        elif isinstance(n_, (ast.For, ast.comprehension)):
+                            tgt = n_.iter
+                        if isinstance(tgt, ast.Attribute) and isinstance(tgt.value, ast.Name) and tgt.value.id == "self" and tgt.attr == f.name:
+                            iterated.append(f"{c2.name}.{mname}")
+            if not iterated:
+                continue
+            n_fields += 1
+            s.ob("C12.4", f"{ci.name}.{f.name}", (vk or ak) == "ordered",
+                 "a mapping-valued pytree field that methods iterate in order is an OrderedDict (a plain dict is re-ordered by key at every jit / vmap boundary)",
+                 P.loc(ci.module, ci.node), key="plain-dict-pytree-field", detail=f"annotation: {ak}; __init__ stores: {vk}; iterated in {sorted(set(iterated))[:6]}",
+                 necessary_for="the same result eagerly, under jit and under vmap (component order of Dict spaces, flatten_sample, samples)")
+    s.ob("C12.4", "package", n_fields >= 1, "at least one mapping-valued pytree field was examined (Dict.spaces)", "", key="mapping-fields-found", detail=str(n_fields))
